@@ -3,6 +3,7 @@ CONSTANTS
   Inputs <- SimInputs
   GenEdits <- MCGenEdits
   Shipped = {}
+  TsrValues = {TRUE, FALSE}
   GenSteps = 2
   Quick = FALSE
   PumpK = 3
